@@ -78,8 +78,10 @@ func (hh *heads) Replace(ctx context.Context, old cid.Cid, new cid.Cid, height u
 // List returns the list of current heads plus the max height.
 // @todo Document Heads.List function
 func (hh *heads) List(ctx context.Context) ([]cid.Cid, uint64, error) {
+	// The namespace ends with a complete key component (a field or collection short id): close it
+	// with the separator, so that the heads of field 2 are not taken for heads of field 20.
 	iter, err := hh.store.Iterator(ctx, corekv.IterOptions{
-		Prefix: hh.namespace.Bytes(),
+		Prefix: append(hh.namespace.Bytes(), '/'),
 	})
 	if err != nil {
 		return nil, 0, err
